@@ -8,14 +8,7 @@ import (
 	"fmt"
 	"math"
 	"math/rand"
-	"os"
-	"os/exec"
-	"path/filepath"
 	"runtime/metrics"
-	"strconv"
-	"strings"
-	"sync"
-	"syscall"
 
 	"github.com/golang/geo/s1"
 	"github.com/golang/geo/s2"
@@ -51,132 +44,16 @@ func Run(m *mon.M) {
 	m.Require("inputs.used_after_decode", 2000)
 }
 
-type job struct{ lo, hi int64 }
-
 func runChildren(m *mon.M, lo, hi int64, par int) {
-	bin := os.Getenv("VERIF_BIN")
-	if bin == "" {
-		bin, _ = os.Executable()
-	}
-	work := filepath.Join(mon.Root(), ".work", "c15")
-	os.MkdirAll(work, 0o755)
-	chunk := (hi - lo + int64(par*4) - 1) / int64(par*4)
-	if chunk < 1 {
-		chunk = 1
-	}
-	jobs := make(chan job, 1024)
-	var wg sync.WaitGroup
-	var mu sync.Mutex
-	pending := 0
-	deaths := 0 // children that died; after maxDeaths the remaining ranges are skipped (verdict is already "violated")
-	const maxDeaths = 12
-	add := func(j job) {
-		mu.Lock()
-		pending++
-		mu.Unlock()
-		jobs <- j
-	}
-	done := func() {
-		mu.Lock()
-		pending--
-		if pending == 0 {
-			close(jobs)
+	mon.RunChildren(m, "c15", stream, lo, hi, par, func(d mon.Death) (string, string, any) {
+		kind, input := inputFor(m.Seed, d.Index)
+		sev := "fatal"
+		if d.Kind == "killed" {
+			sev = "hang-or-killed"
 		}
-		mu.Unlock()
-	}
-	go func() {
-		for a := lo; a < hi; a += chunk {
-			b := a + chunk
-			if b > hi {
-				b = hi
-			}
-			add(job{a, b})
-		}
-	}()
-	for w := 0; w < par; w++ {
-		wg.Add(1)
-		go func(w int) {
-			defer wg.Done()
-			for j := range jobs {
-				mu.Lock()
-				skip := deaths >= maxDeaths
-				mu.Unlock()
-				if skip {
-					m.Count("ranges_skipped_after_repeated_child_deaths", 1)
-					done()
-					continue
-				}
-				tag := fmt.Sprintf("%d-%d-%d", os.Getpid(), w, j.lo)
-				out := filepath.Join(work, "out-"+tag+".json")
-				jr := filepath.Join(work, "journal-"+tag)
-				errf := filepath.Join(work, "stderr-"+tag)
-				ef, _ := os.Create(errf)
-				cmd := exec.Command(bin, "worker", "c15", strconv.FormatInt(j.lo, 10), strconv.FormatInt(j.hi, 10), out, jr)
-				cmd.Env = append(os.Environ(), "VERIF_SEED="+strconv.FormatInt(m.Seed, 10), "VERIF_TIER="+m.Tier, "VERIF_REPLAY=", "GOTRACEBACK=single")
-				cmd.Stderr = ef
-				cmd.Stdout = ef
-				err := cmd.Run()
-				ef.Close()
-				if merr := m.MergePartial(out); merr != nil && err == nil {
-					m.Broken("child produced no result file: " + merr.Error())
-				}
-				if err != nil {
-					// the child died: the culprit is the journalled index
-					mu.Lock()
-					deaths++
-					mu.Unlock()
-					last := j.lo
-					if b, e := os.ReadFile(jr); e == nil && len(b) >= 8 {
-						last = int64(binary.LittleEndian.Uint64(b))
-					}
-					tail, _ := os.ReadFile(errf)
-					msg := firstFatalLine(string(tail))
-					kind, input := inputFor(m.Seed, last)
-					ws := "exit"
-					if ee, ok := err.(*exec.ExitError); ok {
-						if st, ok := ee.Sys().(syscall.WaitStatus); ok && st.Signaled() {
-							ws = "signal " + st.Signal().String()
-						}
-					}
-					sev := "fatal"
-					if strings.Contains(ws, "CPU") || strings.Contains(ws, "XCPU") || strings.Contains(ws, "killed") {
-						sev = "hang-or-killed"
-					}
-					m.ViolationAt(stream, last, kind+"/Decode/"+sev+"/"+shorten(msg), fmt.Sprintf("the process decoding this input died (%s): %s", ws, msg),
-						map[string]any{"decoder": kind, "input_hex": hexb(input), "input_len": len(input), "child": ws, "stderr_head": msg})
-					m.AddEvals(last - j.lo + 1)
-					if last+1 < j.hi {
-						add(job{last + 1, j.hi}) // carry on after the culprit
-					}
-				}
-				os.Remove(out)
-				os.Remove(jr)
-				os.Remove(errf)
-				done()
-			}
-		}(w)
-	}
-	wg.Wait()
-}
-
-func shorten(s string) string {
-	s = strings.TrimSpace(s)
-	if len(s) > 60 {
-		s = s[:60]
-	}
-	return strings.ReplaceAll(s, "/", "_")
-}
-
-func firstFatalLine(s string) string {
-	for _, ln := range strings.Split(s, "\n") {
-		if strings.HasPrefix(ln, "fatal error:") || strings.HasPrefix(ln, "panic:") || strings.Contains(ln, "runtime: out of memory") || strings.HasPrefix(ln, "SIG") {
-			return ln
-		}
-	}
-	if len(s) > 200 {
-		s = s[:200]
-	}
-	return strings.TrimSpace(s)
+		return kind + "/Decode/" + sev + "/" + mon.Shorten(d.Stderr), fmt.Sprintf("the process decoding this input died (%s): %s", d.Exit, d.Stderr),
+			map[string]any{"decoder": kind, "input_hex": hexb(input), "input_len": len(input), "child": d.Exit, "stderr_head": d.Stderr}
+	})
 }
 
 func hexb(b []byte) string {
@@ -188,30 +65,7 @@ func hexb(b []byte) string {
 
 // Worker is the child entry point: mon worker c15 <lo> <hi> <out> <journal>.
 func Worker(args []string) {
-	if len(args) != 4 {
-		fmt.Fprintln(os.Stderr, "usage: worker c15 lo hi out journal")
-		os.Exit(2)
-	}
-	lo, _ := strconv.ParseInt(args[0], 10, 64)
-	hi, _ := strconv.ParseInt(args[1], 10, 64)
-	syscall.Setrlimit(syscall.RLIMIT_AS, &syscall.Rlimit{Cur: 8 << 30, Max: 8 << 30})
-	syscall.Setrlimit(syscall.RLIMIT_CPU, &syscall.Rlimit{Cur: 900, Max: 900})
-	m := mon.New("C15")
-	jf, err := os.OpenFile(args[3], os.O_CREATE|os.O_RDWR, 0o644)
-	if err != nil {
-		fmt.Fprintln(os.Stderr, err)
-		os.Exit(2)
-	}
-	var jb [8]byte
-	m.StreamRange(stream, lo, hi, func(i int64) {
-		binary.LittleEndian.PutUint64(jb[:], uint64(i))
-		jf.WriteAt(jb[:], 0)
-	}, oneInput)
-	if err := m.DumpPartial(args[2]); err != nil {
-		fmt.Fprintln(os.Stderr, err)
-		os.Exit(2)
-	}
-	os.Exit(0)
+	mon.ChildMain("C15", stream, args, 8<<30, 900, oneInput)
 }
 
 // ---------- input generation ----------
